@@ -43,6 +43,7 @@ def key_of(row):
 
 def run(chk):
     import prod_common
+    prod_common.background(prod_common.run_signdev, chk)    # DKLs23 / Lindell22 on production curves with one deviating signer
     prod_common.background(prod_common.run_blsdev, chk)     # Boldyreva BLS on BLS12-381 with one deviating cosigner (family ProdProto)
     binary = vlib.build("tamper")
     main = "session,hjky,redist,redistAnchor,redistNew,gennaro,canetti,lindell22"
